@@ -74,7 +74,9 @@ type API struct {
 
 // RevAPI is what the server calls back on the client.
 type RevAPI struct {
-	Who func(ctx context.Context, tok int) (string, error)
+	Who      func(ctx context.Context, tok int) (string, error)
+	WhoAlias func(ctx context.Context, tok int) (string, error) // resolved through a client-side handler alias
+	WhoTag   func(ctx context.Context, tok int) (string, error) `rpc_method:"R.Who"` // method tag naming the client-side method
 }
 
 type RH struct {
@@ -406,7 +408,16 @@ func (h *H) CallBack(ctx context.Context, tok int) (string, error) {
 		leave("val")
 		return "no-reverse-client", nil
 	}
-	who, err := rc.Who(ctx, tok)
+	var who string
+	var err error
+	switch tok % 3 {
+	case 0:
+		who, err = rc.Who(ctx, tok)
+	case 1:
+		who, err = rc.WhoAlias(ctx, tok)
+	default:
+		who, err = rc.WhoTag(ctx, tok)
+	}
 	if err != nil {
 		leave("err")
 		return "", fmt.Errorf("reverse call failed: %w", err)
@@ -606,7 +617,7 @@ func (w *World) NewClient(o ClientOpts) (*Client, error) {
 		opts = append(opts, jsonrpc.WithReconnectBackoff(o.BackoffMin, o.BackoffMax))
 	}
 	if o.Reverse {
-		opts = append(opts, jsonrpc.WithClientHandler("R", &RH{w, o.Name}))
+		opts = append(opts, jsonrpc.WithClientHandler("R", &RH{w, o.Name}), jsonrpc.WithClientHandlerAlias("R.WhoAlias", "R.Who"))
 	}
 	first := true
 	opts = append(opts, jsonrpc.WithVerifConnFactory(func(orig func() (*websocket.Conn, error)) func() (*websocket.Conn, error) {
